@@ -455,3 +455,403 @@ def check_regen(pid, tag, producer, repo):
         problems.append("regenerated model (%s) does not compile: %s" % (tag, " ".join((res[tag].err or res[tag].out).split())[-400:]))
     return {"obligations": len(obls), "discharged": len(obls) - len(failed), "units": units, "failed_units": failed,
             "problems": problems}
+
+
+# ===================================================================================== scalar (R-valued) front end
+class RV:
+    """A value of the per-evaluation-point reading of vectorised NumPy code.
+    shape: 'S' scalar of the evaluation point; 'Q' one entry per quadrature node (a term in the free variable `wx`);
+           'B' / 'BQ' booleans (a {a < b} + {~ a < b} decision term) of those shapes; 'D1' the all-ones vector over
+           evaluation points; 'D2' the all-ones vector over quadrature nodes; 'N' a Python int that is not a value."""
+    __slots__ = ("shape", "term")
+
+    def __init__(self, shape, term):
+        self.shape, self.term = shape, term
+
+
+def _lit(node, src):
+    """Real literal, with the digits of the source text (so that it is syntactically the model's literal)."""
+    v = node.value
+    if isinstance(v, bool):
+        _fail(node, "boolean literal")
+    if isinstance(v, int):
+        return "%d" % v if v >= 0 else "(%d)" % v
+    seg = ast.get_source_segment(src, node) or repr(v)
+    seg = seg.strip().lower().replace("_", "")
+    if "e" in seg or "inf" in seg or "nan" in seg:
+        _fail(node, "float literal %s" % seg)
+    if seg.startswith("."):
+        seg = "0" + seg
+    if "." in seg:
+        a, b = seg.split(".")
+        if b.strip("0") == "":
+            return a or "0"
+        return "%s.%s" % (a or "0", b)
+    return seg
+
+
+class ScalarExec:
+    FUN1 = {"np.sqrt": "sqrt", "np.exp": "exp", "np.sin": "sin", "np.arcsin": "asin", "np.abs": "Rabs", "abs": "Rabs",
+            "np.cos": "cos", "np.log": "ln"}
+    FUN2 = {"np.maximum": "Rmax", "np.minimum": "Rmin"}
+
+    def __init__(self, src, module_funcs, phi="Phi", qname="q"):
+        self.src, self.funcs, self.phi, self.qname = src, module_funcs, phi, qname
+        self.quad_r = None          # the argument of gauss_legendre_quad, once called
+
+    def ev(self, e, env):
+        if isinstance(e, ast.Name):
+            if e.id in env:
+                return env[e.id]
+            _fail(e, "unknown name %s" % e.id)
+        if isinstance(e, ast.Constant):
+            return RV("S", _lit(e, self.src))
+        if isinstance(e, ast.Attribute) and ast.unparse(e) in ("np.pi", "numpy.pi", "math.pi"):
+            return RV("S", "PI")
+        if isinstance(e, ast.UnaryOp) and isinstance(e.op, ast.USub):
+            a = self.ev(e.operand, env)
+            if isinstance(e.operand, ast.Constant) and a.shape == "S":
+                return RV("S", "(-%s)" % a.term if not a.term.startswith("(") else "(- %s)" % a.term)
+            return RV(self.val_shape(e, a), "(- %s)" % a.term)
+        if isinstance(e, ast.BinOp):
+            a, b = self.ev(e.left, env), self.ev(e.right, env)
+            sym = {ast.Add: "+", ast.Sub: "-", ast.Mult: "*", ast.Div: "/"}.get(type(e.op))
+            if sym is None:
+                _fail(e, "operator outside the subset")
+            return self.arith(e, sym, a, b)
+        if isinstance(e, ast.Compare) and len(e.ops) == 1:
+            a, b = self.ev(e.left, env), self.ev(e.comparators[0], env)
+            sh = "BQ" if "Q" in (self.val_shape(e, a), self.val_shape(e, b)) else "B"
+            op = e.ops[0]
+            if isinstance(op, ast.Lt):
+                return RV(sh, "(Rlt_dec %s %s)" % (a.term, b.term))
+            if isinstance(op, ast.Gt):
+                return RV(sh, "(Rlt_dec %s %s)" % (b.term, a.term))
+            if isinstance(op, ast.LtE):
+                return RV(sh, "(Rle_dec %s %s)" % (a.term, b.term))
+            if isinstance(op, ast.GtE):
+                return RV(sh, "(Rle_dec %s %s)" % (b.term, a.term))
+            if isinstance(op, ast.Eq):
+                return RV(sh, "(Req_EM_T %s %s)" % (a.term, b.term))
+            _fail(e, "comparison outside the subset")
+        if isinstance(e, ast.Subscript):
+            base = self.ev(e.value, env)
+            if isinstance(base, tuple):
+                if isinstance(e.slice, ast.Constant) and isinstance(e.slice.value, int) and 0 <= e.slice.value < len(base):
+                    return base[e.slice.value]
+                _fail(e, "index into a tuple that is not a constant")
+            idx = self.ev(e.slice, env) if not isinstance(e.slice, ast.Constant) else None
+            if idx is not None and idx.shape in ("B", "I") and base.shape == "S":
+                return base                     # a[mask] / a[i]: the entry of this evaluation point
+            _fail(e, "subscript outside the subset")
+        if isinstance(e, ast.Tuple):
+            return tuple(self.ev(x, env) for x in e.elts)
+        if isinstance(e, ast.Call):
+            return self.call(e, env)
+        _fail(e, "expression outside the subset: %s" % type(e).__name__)
+
+    def val_shape(self, e, a):
+        if isinstance(a, tuple) or a.shape not in ("S", "Q"):
+            _fail(e, "a real value was expected here, got shape %s" % (getattr(a, "shape", "tuple"),))
+        return a.shape
+
+    def arith(self, e, sym, a, b):
+        # real * mask  (np.multiply(asr1, ind1)): the mask counts as 1 / 0
+        if sym == "*" and not isinstance(a, tuple) and not isinstance(b, tuple) and {a.shape, b.shape} & {"B", "BQ"}:
+            m, v = (a, b) if a.shape in ("B", "BQ") else (b, a)
+            sh = "Q" if "Q" in (m.shape, v.shape) or m.shape == "BQ" else "S"
+            return RV(sh, "(%s * (if %s then 1 else 0))" % (v.term, m.term))
+        sa, sb = self.val_shape(e, a), self.val_shape(e, b)
+        return RV("Q" if "Q" in (sa, sb) else "S", "(%s %s %s)" % (a.term, sym, b.term))
+
+    def call(self, e, env):
+        f = ast.unparse(e.func).replace("numpy.", "np.")
+        args = e.args
+        if f in self.FUN1 and len(args) == 1 and not e.keywords:
+            a = self.ev(args[0], env)
+            return RV(self.val_shape(e, a), "(%s %s)" % (self.FUN1[f], a.term))
+        if f in self.FUN2 and len(args) == 2 and not e.keywords:
+            a, b = self.ev(args[0], env), self.ev(args[1], env)
+            sh = "Q" if "Q" in (self.val_shape(e, a), self.val_shape(e, b)) else "S"
+            return RV(sh, "(%s %s %s)" % (self.FUN2[f], a.term, b.term))
+        if f in ("np.multiply", "np.divide", "np.add", "np.subtract") and len(args) == 2 and not e.keywords:
+            sym = {"np.multiply": "*", "np.divide": "/", "np.add": "+", "np.subtract": "-"}[f]
+            return self.arith(e, sym, self.ev(args[0], env), self.ev(args[1], env))
+        if f == "norm_cdf" and len(args) == 1 and not e.keywords:
+            a = self.ev(args[0], env)
+            return RV(self.val_shape(e, a), "(%s %s)" % (self.phi, a.term))
+        if f == "np.outer" and len(args) == 2 and not e.keywords:
+            a, b = self.ev(args[0], env), self.ev(args[1], env)
+            if a.shape == "D1" and b.shape == "Q":
+                return b                        # one row per evaluation point: the node vector itself
+            if a.shape == "S" and b.shape == "D2":
+                return a                        # the point's scalar, repeated over the nodes
+            _fail(e, "np.outer of shapes %s x %s" % (a.shape, b.shape))
+        if f == "np.ones" and not e.keywords or f == "np.ones" and [k.arg for k in e.keywords] == ["dtype"]:
+            t = ast.unparse(args[0]).replace(" ", "")
+            if t.startswith("(len("):
+                return RV("D1", "?")
+            if t in ("(lg,)", "lg"):
+                return RV("D2", "?")
+            _fail(e, "np.ones of shape %s" % t)
+        if f == "np.zeros" and ast.unparse(args[0]).replace(" ", "").startswith("(len("):
+            return RV("S", "0")
+        if f == "np.sum" and len(args) == 1 and [k.arg for k in e.keywords] == ["axis"] \
+                and isinstance(e.keywords[0].value, ast.Constant) and e.keywords[0].value.value == 1:
+            a = self.ev(args[0], env)
+            if a.shape != "Q":
+                _fail(e, "np.sum(axis=1) of something that does not range over the quadrature nodes")
+            return RV("S", "(sum_list (map (fun wx : R * R => %s) %s))" % (a.term, self.qname))
+        if f == "np.where" and len(args) == 3 and not e.keywords:
+            c, a, b = (self.ev(x, env) for x in args)
+            if c.shape not in ("B", "BQ"):
+                _fail(e, "np.where on a non-mask")
+            sh = "Q" if c.shape == "BQ" or "Q" in (a.shape, b.shape) else "S"
+            return RV(sh, "(if %s then %s else %s)" % (c.term, a.term, b.term))
+        if f == "gauss_legendre_quad" and len(args) == 1 and not e.keywords:
+            r = self.ev(args[0], env)
+            self.quad_r = r.term
+            return (RV("N", "lg"), RV("Q", "(fst wx)"), RV("Q", "(snd wx)"))
+        if f == "len":
+            return RV("N", "len")
+        _fail(e, "call of %s is outside the subset" % f)
+
+    # ---- statements.  Returns ('ret', RV) when every path returned, else None (env updated in place)
+    def run(self, body, env):
+        for k, st in enumerate(body):
+            if isinstance(st, ast.Expr) and isinstance(st.value, ast.Constant):
+                continue
+            if isinstance(st, ast.Return):
+                return ("ret", self.ev(st.value, env))
+            if isinstance(st, ast.Assign) and len(st.targets) == 1:
+                self.assign(st.targets[0], st.value, env, st)
+                continue
+            if isinstance(st, ast.If):
+                r = self.run_if(st, env)
+                if r is not None:
+                    return r
+                continue
+            if isinstance(st, ast.For) and isinstance(st.iter, (ast.List, ast.Tuple)) and isinstance(st.target, ast.Name) \
+                    and not st.orelse:
+                for item in st.iter.elts:          # a loop over a literal list is unrolled
+                    env[st.target.id] = self.ev(item, env)
+                    if self.run(st.body, env) is not None:
+                        _fail(st, "return inside a loop")
+                continue
+            _fail(st, "statement outside the subset: %s" % ast.unparse(st).split("\n")[0][:80])
+        return None
+
+    def run_if(self, st, env):
+        c = self.ev(st.test, env)
+        if isinstance(c, tuple) or c.shape != "B":
+            _fail(st, "if-test is not a scalar comparison")
+        e1, e2 = dict(env), dict(env)
+        r1 = self.run(st.body, e1)
+        r2 = self.run(st.orelse, e2) if st.orelse else None
+        if r1 is not None and r2 is not None:
+            a, b = r1[1], r2[1]
+            if isinstance(a, tuple) or isinstance(b, tuple):
+                _fail(st, "branches return tuples")
+            return ("ret", RV("S", "(if %s then %s else %s)" % (c.term, a.term, b.term)))
+        if r1 is not None or r2 is not None:
+            # `if c: return a` followed by more code: the rest is the else branch -- handled by the caller only when
+            # the If is the last statement; otherwise outside the subset
+            _fail(st, "only one branch returns")
+        for k in set(e1) | set(e2):
+            v1, v2 = e1.get(k), e2.get(k)
+            if v1 is v2:
+                env[k] = v1
+                continue
+            if v1 is None or v2 is None or isinstance(v1, tuple) or isinstance(v2, tuple) or \
+                    v1.shape != v2.shape or v1.shape not in ("S", "Q"):
+                # a name bound on one branch only and never merged: keep it out of scope
+                env.pop(k, None)
+                continue
+            env[k] = RV(v1.shape, "(if %s then %s else %s)" % (c.term, v1.term, v2.term))
+        return None
+
+    def assign(self, target, value, env, st):
+        if isinstance(target, ast.Name):
+            env[target.id] = self.ev(value, env)
+            return
+        if isinstance(target, ast.Tuple):
+            v = self.ev(value, env)
+            if not (isinstance(v, tuple) and len(v) == len(target.elts) and all(isinstance(t, ast.Name) for t in target.elts)):
+                _fail(st, "tuple assignment outside the subset")
+            for t, x in zip(target.elts, v):
+                env[t.id] = x
+            return
+        if isinstance(target, ast.Subscript) and isinstance(target.value, ast.Name):
+            # a[mask] = v : masked update of this evaluation point's entry;  a[i] = v: elementwise store
+            base = env.get(target.value.id)
+            idx = self.ev(target.slice, env)
+            v = self.ev(value, env)
+            if base is not None and not isinstance(base, tuple) and base.shape == "S" and not isinstance(v, tuple) and v.shape == "S":
+                if idx.shape == "B":
+                    env[target.value.id] = RV("S", "(if %s then %s else %s)" % (idx.term, v.term, base.term))
+                    return
+                if idx.shape == "I":
+                    env[target.value.id] = v
+                    return
+        _fail(st, "assignment target outside the subset")
+
+
+SCALAR_HEADER = """(* GENERATED by harness/src2coq.py from persim/images_kernels.py and persim/images_weights.py of the current tree *)
+From Coq Require Import Reals List Lra.
+From Persim Require Import Model.KernelM Model.ImageM Corr.RegenTac.
+Import ListNotations.
+Open Scope R_scope.
+"""
+
+
+def _module(repo, rel):
+    path = os.path.join(repo, rel)
+    with open(path) as f:
+        src = f.read()
+    tree = ast.parse(src, filename=path)
+    funcs = {n.name: n for n in tree.body if isinstance(n, ast.FunctionDef)}
+    return src, tree, funcs
+
+
+def _params(g):
+    return [a.arg for a in g.args.args]
+
+
+def scalar_regen(repo):
+    defs, obls = [], []
+    src, tree, F = _module(repo, "persim/images_kernels.py")
+
+    def S(t):
+        return RV("S", t)
+
+    # ---- norm_cdf is erfc(-x / sqrt 2) / 2: SciPy's erfc is external, so only the text is pinned
+    g = F["norm_cdf"]
+    body = [st for st in g.body if not (isinstance(st, ast.Expr) and isinstance(st.value, ast.Constant))]
+    if len(body) != 1 or not isinstance(body[0], ast.Return) or \
+            ast.dump(body[0].value) != ast.dump(ast.parse("erfc(-x / np.sqrt(2.0)) / 2.0", mode="eval").body):
+        raise Unsupported("line %d: norm_cdf is no longer erfc(-x / np.sqrt(2.0)) / 2.0" % g.lineno)
+
+    # ---- uniform
+    g = F["uniform"]
+    X = ScalarExec(src, F)
+    env = {"x": S("x"), "y": S("y"), "mu": (S("(fst mu)"), S("(snd mu)")), "width": S("width"), "height": S("height")}
+    if _params(g) != ["x", "y", "mu", "width", "height"]:
+        raise Unsupported("line %d: signature of uniform changed: %s" % (g.lineno, _params(g)))
+    r = X.run(g.body, env)
+    if r is None:
+        raise Unsupported("uniform does not return")
+    defs.append("Definition src_uniform (mu : R * R) (width height x y : R) : R := %s." % r[1].term)
+    obls.append(("regen_uniform", "forall mu width height x y, src_uniform mu width height x y = uniform_cdf mu width height x y",
+                 "images_kernels.uniform", g.lineno))
+
+    # ---- sbvn_cdf
+    g = F["sbvn_cdf"]
+    if _params(g) != ["x", "y", "mu_x", "mu_y", "sigma_x", "sigma_y"]:
+        raise Unsupported("line %d: signature of sbvn_cdf changed" % g.lineno)
+    X = ScalarExec(src, F)
+    env = {k: S(k) for k in _params(g)}
+    r = X.run(g.body, env)
+    defs.append("Definition src_sbvn_cdf (Phi : R -> R) (x y mu_x mu_y sigma_x sigma_y : R) : R := %s." % r[1].term)
+    obls.append(("regen_sbvn_cdf", "forall Phi x y mu_x mu_y sigma_x sigma_y, src_sbvn_cdf Phi x y mu_x mu_y sigma_x sigma_y = "
+                 "sbvn_cdf Phi x y mu_x mu_y sigma_x sigma_y", "images_kernels.sbvn_cdf", g.lineno))
+
+    # ---- gauss_legendre_quad: thresholds and tables
+    g = F["gauss_legendre_quad"]
+    X = ScalarExec(src, F)
+
+    def table(env2, node):
+        lg, w, x = env2.get("lg"), env2.get("w"), env2.get("x")
+        if not (isinstance(lg, list) and isinstance(w, list) and isinstance(x, list) and len(lg) == 1
+                and int(lg[0]) == len(w) == len(x)):
+            _fail(node, "quadrature rule: lg / w / x do not have matching lengths")
+        return "[" + "; ".join("(%s, %s)" % (a, b) for a, b in zip(w, x)) + "]"
+
+    def glq(stmts):
+        # if |r| < t: <assign lg, w, x> elif ... else ... ; return lg, w, x
+        st = [s for s in stmts if not (isinstance(s, ast.Expr) and isinstance(s.value, ast.Constant))]
+        if len(st) >= 1 and isinstance(st[0], ast.If):
+            c = X.ev(st[0].test, {"r": S("r")})
+            a = glq(st[0].body)
+            b = glq(st[0].orelse)
+            return "(if %s then %s else %s)" % (c.term, a, b)
+        env2 = {}
+        for s in st:
+            if not (isinstance(s, ast.Assign) and isinstance(s.targets[0], ast.Name)):
+                _fail(s, "gauss_legendre_quad: statement outside the subset")
+            v = s.value
+            if isinstance(v, ast.Constant):
+                env2[s.targets[0].id] = [v.value]
+            elif isinstance(v, ast.Call) and ast.unparse(v.func) in ("np.array", "numpy.array") and isinstance(v.args[0], ast.List):
+                env2[s.targets[0].id] = [_lit(c, src) for c in v.args[0].elts]
+            else:
+                _fail(s, "gauss_legendre_quad: value outside the subset")
+        return table(env2, st[0] if st else g)
+    body = [s for s in g.body if not isinstance(s, ast.Return)]
+    rets = [s for s in g.body if isinstance(s, ast.Return)]
+    if len(rets) != 1 or ast.unparse(rets[0].value).replace(" ", "") not in ("(lg,w,x)", "lg,w,x"):
+        raise Unsupported("line %d: gauss_legendre_quad no longer returns (lg, w, x)" % g.lineno)
+    defs.append("Definition src_gauss_legendre_quad (r : R) : list (R * R) := %s." % glq(body))
+    obls.append(("regen_gauss_legendre_quad", "forall r, src_gauss_legendre_quad r = gauss_legendre_quad r",
+                 "images_kernels.gauss_legendre_quad", g.lineno))
+
+    # ---- gaussian: the dispatch
+    g = F["gaussian"]
+    if _params(g) != ["birth", "pers", "mu", "sigma"]:
+        raise Unsupported("line %d: signature of gaussian changed" % g.lineno)
+    disp = [st for st in g.body if isinstance(st, ast.If) and "is None" not in ast.unparse(st.test)]
+    if len(disp) != 1:
+        raise Unsupported("line %d: gaussian: expected one dispatching if" % g.lineno)
+    want = ast.parse(
+        "if sigma[0][1] == 0.0:\n"
+        "    return sbvn_cdf(birth, pers, mu_x=mu[0], mu_y=mu[1], sigma_x=sigma[0][0], sigma_y=sigma[1][1])\n"
+        "else:\n"
+        "    return bvn_cdf(birth, pers, mu_x=mu[0], mu_y=mu[1], sigma_xx=sigma[0][0], sigma_yy=sigma[1][1], sigma_xy=sigma[0][1])\n").body[0]
+    if ast.dump(disp[0]) != ast.dump(want):
+        raise Unsupported("line %d: the dispatch of gaussian() is no longer the modelled one (Model/KernelM.v gaussian_cdf_gen)" % disp[0].lineno)
+
+    # ---- bvn_cdf
+    g = F["bvn_cdf"]
+    if _params(g) != ["x", "y", "mu_x", "mu_y", "sigma_xx", "sigma_yy", "sigma_xy"]:
+        raise Unsupported("line %d: signature of bvn_cdf changed" % g.lineno)
+    X = ScalarExec(src, F, qname="(gauss_legendre_quad r)")
+    env = {k: S(k) for k in _params(g)}
+    r = X.run(g.body, env)
+    if r is None or X.quad_r is None:
+        raise Unsupported("bvn_cdf does not return / does not call gauss_legendre_quad")
+    term = r[1].term.replace("(gauss_legendre_quad r)", "(gauss_legendre_quad %s)" % X.quad_r)
+    defs.append("Definition src_bvn_cdf (Phi : R -> R) (x y mu_x mu_y sigma_xx sigma_yy sigma_xy : R) : R := %s." % term)
+    obls.append(("regen_bvn_cdf", "forall Phi x y mu_x mu_y sigma_xx sigma_yy sigma_xy, "
+                 "src_bvn_cdf Phi x y mu_x mu_y sigma_xx sigma_yy sigma_xy = bvn_cdf Phi x y mu_x mu_y sigma_xx sigma_yy sigma_xy",
+                 "images_kernels.bvn_cdf", g.lineno))
+
+    # ---- weights
+    srcw, treew, W = _module(repo, "persim/images_weights.py")
+    g = W["linear_ramp"]
+    if _params(g) != ["birth", "pers", "low", "high", "start", "end"]:
+        raise Unsupported("line %d: signature of linear_ramp changed" % g.lineno)
+    loops = [st for st in g.body if isinstance(st, ast.For)]
+    if len(loops) != 1 or ast.unparse(loops[0].iter) != "range(n)" or not isinstance(loops[0].target, ast.Name):
+        raise Unsupported("line %d: linear_ramp: expected one loop `for i in range(n)`" % g.lineno)
+    X = ScalarExec(srcw, W)
+    i = loops[0].target.id
+    env = {"pers": S("p"), "birth": S("b"), "low": S("low"), "high": S("high"), "start": S("start"), "end": S("stop"),
+           i: RV("I", "i"), "w": S("0")}
+    if X.run(loops[0].body, env) is not None:
+        raise Unsupported("linear_ramp: return inside the loop")
+    rets = [st for st in g.body if isinstance(st, ast.Return)]
+    if len(rets) != 1 or ast.unparse(rets[0].value) != "w":
+        raise Unsupported("linear_ramp no longer returns w")
+    defs.append("Definition src_linear_ramp (low high start stop b p : R) : R := %s." % env["w"].term)
+    obls.append(("regen_linear_ramp", "forall low high start stop b p, src_linear_ramp low high start stop b p = "
+                 "linear_ramp low high start stop b p", "images_weights.linear_ramp", g.lineno))
+    g = W["persistence"]
+    body = [st for st in g.body if not (isinstance(st, ast.Expr) and isinstance(st.value, ast.Constant))]
+    if _params(g) != ["birth", "pers", "n"] or len(body) != 1 or not isinstance(body[0], ast.Return) or \
+            ast.dump(body[0].value) != ast.dump(ast.parse("pers ** n", mode="eval").body):
+        raise Unsupported("line %d: persistence is no longer `pers ** n`" % g.lineno)
+
+    text = SCALAR_HEADER + "\n".join(defs) + "\n\n"
+    text += "#[local] Hint Unfold src_uniform src_sbvn_cdf src_bvn_cdf src_linear_ramp : regen.\n"
+    for name, stmt, unit, line in obls:
+        text += "Lemma %s : %s.\nProof. regen_solve. Qed.\n" % (name, stmt)
+    return text, [(n, u, l) for n, _, u, l in obls]
